@@ -970,3 +970,14 @@ M("C15-skip-to-end-nested-ignores-eof", "C15", "src/cppparser/cppPreprocessor.cx
 M("C15-benign-template-args-eof-test-in-condition", "C15", "src/cppparser/cppPreprocessor.cxx",
   "       pi != formal_params._parameters.end() && _parsing_template_params;) {", "       pi != formal_params._parameters.end() && _parsing_template_params && _state != S_eof;) {",
   benign=True)
+
+M("C14-bit-width-uninitialised-on-error", "C14", "src/cppparser/cppInstance.cxx",
+  "      _bit_width = ii->_bit_width->evaluate().as_integer();\n    } else {\n      _bit_width = -1;\n    }", "      _bit_width = result.as_integer();\n    }",
+  expect="R14.6|CPPInstance(")
+M("C14-benign-bit-width-default-first", "C14", "src/cppparser/cppInstance.cxx",
+  "  if (ii->_bit_width != nullptr) {\n    CPPExpression::Result result = ii->_bit_width->evaluate();\n    if (result._type != CPPExpression::RT_error) {\n      _bit_width = ii->_bit_width->evaluate().as_integer();\n    } else {\n      _bit_width = -1;\n    }\n  } else {\n    _bit_width = -1;\n  }",
+  "  _bit_width = -1;\n  if (ii->_bit_width != nullptr) {\n    CPPExpression::Result result = ii->_bit_width->evaluate();\n    if (result._type != CPPExpression::RT_error) {\n      _bit_width = result.as_integer();\n    }\n  }",
+  benign=True)
+M("C14-interrogate-type-flag-uninitialised", "C14", "src/interrogatedb/interrogateFunctionWrapper.I",
+  "  _return_value_destructor = 0;\n", "",
+  expect="R14.6|InterrogateFunctionWrapper(")
